@@ -113,7 +113,10 @@ def strictWorld (v1w : CheckV1.World) : CheckV1.World :=
   { v1w with stored := st, ctxTuples := ct }
 
 /-- which repair of the model makes it agree with `want` -/
-def diagnose (w : CheckV2.World) (v1w : CheckV1.World) (want : String) : String :=
+def diagnose (w : CheckV2.World) (v1w : CheckV1.World) (want obs : String) : String :=
+  if !(modelClasses w 2).contains obs then
+    "unexplained (the model of the engine does not reproduce this answer)"
+  else
   let tainted := (checkSet w 2).any (fun o => match o with | .ok _ t => t | _ => false)
   let agrees (w' : CheckV2.World) : Bool := (modelClasses w' 2).all (fun c => c = want || !isDec c) && (modelClasses w' 2).any (· = want)
   if agrees w then
@@ -184,9 +187,9 @@ def step (c impl : String) : String :=
           cls.findSome? (fun x =>
             if !isDec x then none
             else if (o = "T" || o = "F") && x ≠ o then
-              some s!"object subject: weighted-graph engine ({name}) answered {x} but the reference semantics is {o}: {diagnose w v1w o}"
+              some s!"object subject: weighted-graph engine ({name}) answered {x} but the reference semantics is {o}: {diagnose w v1w o x}"
             else if o = "U" then
-              some s!"object subject: weighted-graph engine ({name}) answered {x} although an unevaluable condition leaves the answer open: {diagnose w v1w "Econd"}"
+              some s!"object subject: weighted-graph engine ({name}) answered {x} although an unevaluable condition leaves the answer open: {diagnose w v1w "Econd" x}"
             else none)))
       -- (2) userset / wildcard subjects: a difference from the default engine needs a reported reason
       let cr := i.get "cr"
@@ -202,7 +205,7 @@ def step (c impl : String) : String :=
                 let why :=
                   if v1side then "the default engine is wrong here (C01 findings F1/F12), the weighted-graph engine agrees with the reference semantics"
                   else
-                    let d := diagnose w v1w v1
+                    let d := diagnose w v1w v1 x
                     -- V2-C only when the engine behaves exactly as modelled (untainted): a genuine difference of the two
                     -- engines' semantics for this subject that the detector's catalogue does not cover
                     let asModelled := (checkSet w 2).any (fun o => renderV o = x && (match o with | .ok _ t => !t | _ => false))
